@@ -26,7 +26,7 @@ RULE = ("payload trees (nesting <= 6) holding class-tagged dicts at any depth: t
         "encoded bytes); non-trivial = the payload contains at least one class-tagged dict")
 ASSUMPTIONS = ["CPython audit events cover import/exec/open/socket/subprocess/ctypes side effects", "marshal byte-level fuzz excluded (quantifier is over payload trees)",
                "converters registered by the harness itself are exempt, as the statement says"]
-REQUIRED_REACH = ["decoded_ok", "rejected", "must_raise_checked", "audit_allowed_events", "exceptions_built", "pyro_objects_built", "mutants_decoded", "converter_exemption_checked", "near_miss_tags_checked", "decodes_from_memoryview", "decodes_from_bytearray", "converter_history_decodes"]
+REQUIRED_REACH = ["decoded_ok", "rejected", "must_raise_checked", "audit_allowed_events", "exceptions_built", "pyro_objects_built", "mutants_decoded", "converter_exemption_checked", "near_miss_tags_checked", "decodes_from_memoryview", "decodes_from_bytearray", "converter_history_decodes", "bulk_payloads"]
 SHARD_TIMEOUT = {"quick": 220, "thorough": 2400}
 
 SAFE_TAGS = ["Pyro5.core.URI", "Pyro5.client.Proxy", "Pyro5.server.Daemon", "Pyro5.util.SerpentSerializer", "Pyro5.util.MarshalSerializer",
@@ -365,6 +365,16 @@ def make_case(P, r, sername):
         tree = (vargs, kwargs)
     else:
         tree = g.value(depth, True)
+    if r.random() < 0.03:
+        # the tree sits at the end of a long run of plain values (bulk data): it is judged exactly as it would be on its own
+        filler = [r.choice([0, 1.5, "s", None, True])] * r.choice([101, 1001, 4097, 6000])
+        if r.random() < 0.5:
+            filler = [i if i % 3 else "x%d" % i for i in range(len(filler))]
+        if call:
+            tree = ([filler + list(tree[0])] if r.random() < 0.5 else [tuple(filler) + tuple(tree[0])], tree[1])
+        else:
+            tree = filler + [tree] if r.random() < 0.5 else [tuple(filler + [tree])]
+        g.bulk = True
     return tree, call, g.must_raise, g.ntags
 
 
@@ -450,6 +460,8 @@ def run_shard(shard, rec):
         payload = ("tree", sername, call, data, must_raise)
         rec.case(("t", sername, call, core.h64(data)), nontrivial=ntags > 0,
                  sample={"serializer": sername, "path": "loadsCall" if call else "loads", "tree": core.short(tree, 300), "must_raise": must_raise} if j % 400 == 5 else None)
+        if len(data) > 4000:
+            rec.count("bulk_payloads")
         run_decode(env, sername, data, call, must_raise, rec, payload, buf="bytes" if (j // 4) % 4 else "bytearray")
         if ntags > 0 or j % 5 == 0:
             rec.case(("t-mv", sername, call, core.h64(data)), nontrivial=ntags > 0)
